@@ -15,7 +15,7 @@ Trace == ndJsonDeserialize("trace.ndjson")
 VARIABLES l, bad,
           open,        \* calls started and not yet returned: set of <<g, n>>
           outstanding, \* ids the peer has received and not yet answered
-          regs,        \* channel -> results sent to it since it was registered
+          regs,        \* channel -> [sid, n]: request it is registered for, results sent to it for that request
           c03,         \* "" or description of a C03 violation
           c04          \* "" or description of a C04 violation
 
@@ -49,6 +49,12 @@ Step(e) ==
                        IF Has(e, "mustok") /\ e.mustok THEN "a call whose reply had been received completely returned an error"
                        ELSE "a call whose reply was not received returned no error")
          /\ UNCHANGED <<outstanding, regs>>
+    [] e.ev = "Judge" ->
+         \* C04: replies received completely before the failure are kept, every other call fails
+         /\ c04' = Set(c04, (e.mustok /\ e.err # "") \/ (e.musterr /\ e.err = ""),
+                       IF e.mustok THEN "a call whose reply had been received completely before the failure returned an error"
+                       ELSE "a call whose reply was not received returned no error")
+         /\ UNCHANGED <<bad, open, outstanding, regs, c03>>
     [] e.ev = "PReq" ->
          /\ c03' = Set(c03, e.bad \/ e.id \in outstanding,
                        IF e.bad THEN "a request did not reach the wire as one contiguous well-framed packet"
@@ -62,13 +68,17 @@ Step(e) ==
          /\ c03' = Set(c03, ~(Has(e, "expected") /\ e.expected), "the client->server stream does not parse as a sequence of frames")
          /\ UNCHANGED <<bad, open, outstanding, regs, c04>>
     [] e.ev = "CcPut" ->
-         /\ regs' = Upd(regs, e.ch, 0)
+         \* channel identity is an address and addresses are reused after garbage collection, so a registration is the pair
+         \* (channel, request id); request ids are unique within a client
+         /\ regs' = Upd(regs, e.ch, [sid |-> e.sid, n |-> 0])
          /\ UNCHANGED <<bad, open, outstanding, c03, c04>>
     [] e.ev = "CcDeliver" ->
-         \* "closed": putChannel refused the registration and answers on the channel itself (a fresh use of the channel)
-         /\ regs' = IF e.how = "closed" THEN Upd(regs, e.ch, 1)
-                    ELSE IF e.ch \in DOMAIN regs THEN Upd(regs, e.ch, regs[e.ch] + 1) ELSE regs
-         /\ c04' = Set(c04, e.how # "closed" /\ e.ch \in DOMAIN regs /\ regs[e.ch] >= 1, "a waiting caller was notified twice (second result sent to its channel)")
+         \* "closed": putChannel refused the registration and answers on the channel itself
+         /\ regs' = IF e.how = "closed" THEN Upd(regs, e.ch, [sid |-> e.sid, n |-> 1])
+                    ELSE IF e.ch \in DOMAIN regs /\ regs[e.ch].sid = e.sid THEN Upd(regs, e.ch, [sid |-> e.sid, n |-> regs[e.ch].n + 1])
+                    ELSE regs
+         /\ c04' = Set(c04, e.how # "closed" /\ e.ch \in DOMAIN regs /\ regs[e.ch].sid = e.sid /\ regs[e.ch].n >= 1,
+                       "a waiting caller was notified twice (second result sent to its channel)")
          /\ UNCHANGED <<bad, open, outstanding, c03>>
     [] e.ev = "End" ->
          /\ c04' = Set(c04, e.hung # 0 \/ ~e.waitret \/ ~e.closeret \/ e.goroutines # 0 \/ open # {},
